@@ -1,5 +1,6 @@
 SPECIFICATION Spec
 CONSTANTS
   MaxLen = 2
+  Alphabet = "ascii"
 INVARIANT FillInert
 CHECK_DEADLOCK FALSE
